@@ -11,6 +11,7 @@ package gate
 import (
 	"bytes"
 	"context"
+	"encoding/hex"
 	"errors"
 	"fmt"
 	"math/rand"
@@ -80,6 +81,9 @@ type ItemSpec struct {
 	Idx     int    `json:"idx"`     // peer: claimed share index
 	KeyOf   int    `json:"key_of"`  // peer: validator whose public key the entry is filed under (-1: random key)
 	VIdxTo  int    `json:"vidx_to"` // validator API: overwrite the validator index field with this (0: keep)
+	// ForkVersion (8 hex digits), when set: the signature is made over the object root wrapped with
+	// compute_domain(type, this fork version, genesis validators root), whatever epoch the object names.
+	ForkVersion string `json:"fork_version"`
 }
 
 // CaseSpec is one call.
@@ -101,6 +105,9 @@ type CaseSpec struct {
 	// item variant 3 then signs with the domain of the fork active at Boundary-1 (builder
 	// registrations, which sign with the genesis domain: with the fork active at Boundary).
 	Boundary uint64 `json:"boundary"`
+	// EpochSet: the objects are made for epoch AtEpoch (also 0), no fork straddling.
+	EpochSet bool   `json:"epoch_set"`
+	AtEpoch  uint64 `json:"at_epoch"`
 	// Fault injection: the FaultAt-th beacon-node lookup (spec, domain, genesis domain, fork schedule)
 	// the component makes while handling this call fails with FaultKind: deadline | canceled |
 	// generic | block (hangs until the caller's context ends; the harness cancels the request).
@@ -151,6 +158,7 @@ type env struct {
 	allGens  []dutygen.Gen
 	r        *rand.Rand
 	lockCoq  string
+	versions []eth2p0.Version // fork versions of the beacon mock's schedule
 	baseSlot uint64
 	// per case
 	roots        map[[32]byte]int
@@ -339,6 +347,8 @@ func newEnv(t *testing.T) *env {
 	e.spe, err = e.bmock.SlotsPerEpoch(e.ctx)
 	must(t, err)
 	e.baseSlot = 7*e.spe + 3
+	e.versions, err = dutygen.ForkVersions(e.ctx, e.bmock)
+	must(t, err)
 	for _, g := range dutygen.Gens(true) {
 		e.gens[g.Name] = g
 		e.allGens = append(e.allGens, g)
@@ -515,11 +525,55 @@ func (e *env) ownRoot(g dutygen.Gen, raw any, variant int) (root [32]byte, ok bo
 	return root, err == nil
 }
 
+// versionRoot wraps the object root of raw with the domain of an explicit fork version.
+func (e *env) versionRoot(g dutygen.Gen, raw any, hexv string) (root [32]byte, ok bool) {
+	defer func() {
+		if r := recover(); r != nil {
+			ok = false
+		}
+	}()
+	dom, _, oroot, err := g.Parts(raw, e.spe)
+	if err != nil {
+		return root, false
+	}
+	b, err := hex.DecodeString(hexv)
+	if err != nil || len(b) != 4 {
+		return root, false
+	}
+	root, err = dutygen.SigningRootForkVersion(e.ctx, e.bmock, dom, oroot, eth2p0.Version(b))
+
+	return root, err == nil
+}
+
+// ownVersion is the fork version the consensus spec signs an object of generator g at an epoch with.
+func (e *env) ownVersion(g dutygen.Gen, epoch uint64) string {
+	if g.Duty == core.DutyBuilderRegistration {
+		return hex.EncodeToString(e.versions[0][:]) // genesis fork version
+	}
+	v, err := dutygen.VersionAt(e.ctx, e.bmock, eth2p0.Epoch(epoch))
+	must(e.t, err)
+
+	return hex.EncodeToString(v[:])
+}
+
+// edgeEpochs: epochs 0 and 1, and the last epoch before / the first epoch of every fork of the schedule.
+func (e *env) edgeEpochs() []uint64 {
+	out := []uint64{0, 1}
+	for _, b := range forkBoundaries {
+		out = append(out, b-1, b)
+	}
+
+	return out
+}
+
 // caseSlot is the slot the objects of a case are made for.
 func (e *env) caseSlot(spec CaseSpec) uint64 {
 	e.boundary = spec.Boundary
 	if spec.Boundary > 0 {
 		return spec.Boundary * e.spe
+	}
+	if spec.EpochSet {
+		return spec.AtEpoch*e.spe + 3
 	}
 
 	return e.baseSlot
@@ -996,6 +1050,9 @@ func (e *env) build(g dutygen.Gen, family string, it ItemSpec, slot uint64) any 
 	raw := e.prepare(g, family, it.Val, slot)
 	sign := func() {
 		root, ok := e.ownRoot(g, raw, it.Variant)
+		if ok && it.ForkVersion != "" {
+			root, ok = e.versionRoot(g, raw, it.ForkVersion)
+		}
 		if !ok {
 			return // unreadable after mutation: leave unsigned
 		}
@@ -1522,6 +1579,37 @@ func faultPlan(thorough, peer bool) [][3]string {
 	return out
 }
 
+// edgePlan lists (epoch, fork version or "" for the object's own) pairs: at epochs 0 and 1 and around
+// every fork of the schedule, the correctly forked signature and signatures under the other fork
+// versions of the schedule (all of them in the thorough tier; in the quick tier the genesis version
+// and two rotating others at epochs 0/1, the neighbouring version elsewhere).
+func (e *env) edgePlan(g dutygen.Gen, thorough bool, salt int) [][2]string {
+	var out [][2]string
+	for ei, ep := range e.edgeEpochs() {
+		own := e.ownVersion(g, ep)
+		eps := strconv.FormatUint(ep, 10)
+		out = append(out, [2]string{eps, ""})
+		var others []string
+		for _, v := range e.versions {
+			if hv := hex.EncodeToString(v[:]); hv != own {
+				others = append(others, hv)
+			}
+		}
+		switch {
+		case thorough:
+		case ep <= 1:
+			others = []string{others[0], others[1+(salt+ei)%(len(others)-1)], others[1+(salt+ei+2)%(len(others)-1)]}
+		default:
+			others = []string{others[len(others)-1-(salt+ei)%2]}
+		}
+		for _, o := range others {
+			out = append(out, [2]string{eps, o})
+		}
+	}
+
+	return out
+}
+
 type genOut struct {
 	specs  []CaseSpec
 	leaves map[string]int // endpoint|gen -> number of leaf fields enumerated
@@ -1569,6 +1657,21 @@ func (e *env) genCases(perGenLeaves int) genOut {
 				c.Class = "fork_boundary_neighbour_fork"
 				it := genuine(e.r.Intn(outsider), selfIdx)
 				it.Variant = 3
+				c.Items = []ItemSpec{it}
+				add(c)
+			}
+			// epochs 0 and 1 and the edges of every fork: signed under the fork version the spec prescribes
+			// for the object's own epoch, and under the other fork versions of the schedule
+			for _, pl := range e.edgePlan(g, perGenLeaves > 100, len(out.specs)) {
+				c := base
+				c.EpochSet = true
+				c.AtEpoch, _ = strconv.ParseUint(pl[0], 10, 64)
+				it := genuine(e.r.Intn(outsider), selfIdx)
+				c.Class = "epoch_edge_valid"
+				if pl[1] != "" {
+					c.Class = "epoch_edge_other_fork_version"
+					it.ForkVersion = pl[1]
+				}
 				c.Items = []ItemSpec{it}
 				add(c)
 			}
@@ -1668,6 +1771,17 @@ func (e *env) genCases(perGenLeaves int) genOut {
 		for _, b := range forkBoundaries {
 			one("fork_boundary_valid", func(c *CaseSpec, _ *ItemSpec) { c.Boundary = b })
 			one("fork_boundary_neighbour_fork", func(c *CaseSpec, it *ItemSpec) { c.Boundary = b; it.Variant = 3 })
+		}
+		for _, pl := range e.edgePlan(g, perGenLeaves > 100, len(out.specs)) {
+			cls := "epoch_edge_valid"
+			if pl[1] != "" {
+				cls = "epoch_edge_other_fork_version"
+			}
+			one(cls, func(c *CaseSpec, it *ItemSpec) {
+				c.EpochSet = true
+				c.AtEpoch, _ = strconv.ParseUint(pl[0], 10, 64)
+				it.ForkVersion = pl[1]
+			})
 		}
 		ppaths := e.templatePaths(g, map[bool]string{true: "index", false: ""}[g.VIdx != nil])
 		for _, fp := range faultPlan(perGenLeaves > 100, true) {
